@@ -18,6 +18,11 @@ func (h HandlerFunc) call(ctx context.Context) (err error)
   modifies hCalls, hErrNil, hLast
   ensures hCalls == old(hCalls) + 1 && hLast == err && hErrNil == old(store(hErrNil, hCalls, err == nil))
 
+iface (w Wrapper) Wrap(handler HandlerFunc) (wrapped HandlerFunc)
+  trusted
+  pure
+  ensures wrapped != nil
+
 func (p *RetryPolicy) CreateWrapper() (w Wrapper)
   requires p != nil
   modifies p.waitDuration
